@@ -16,7 +16,7 @@ RULE = ("case = (knot vector with non uniform / repeated knots, optional weights
         "exact normal equations. non-trivial = interior knot or weights; distinct = case JSON")
 ANCHORS = ["LeastSquare.fit_function", "Linalg.lstsq", "Linalg.solve", "Curve.fit_points", "Curve.fit_function"]
 MIN_COUNTERS = {"fits": 100, "normal_equations": 50, "reproductions": 30, "fit_function": 20, "too_few": 5}
-ASSUMPTIONS = ["rank deficient node sets: no outcome demanded", "float class: normal equation residual to 1e-8 relative on well-conditioned vectors",
+ASSUMPTIONS = ["rank deficient node sets: no outcome demanded", "float class: only collocation matrices with condition number < 1e5 are judged", "float class: normal equation residual to 1e-8 relative on well-conditioned vectors",
                "default nodes: equally distributed on exact intervals (documented); the library's Chebyshev nodes on float intervals"]
 
 
@@ -159,6 +159,13 @@ def run_case(case, ctx):
         ctx.count("rank_deficient")
         return
     ctx.count("fits")
+    if not exact:
+        # float verdicts only on numerically well-posed collocation problems: clustered nodes or default nodes on a
+        # discontinuous basis give full rank matrices with condition numbers far beyond what 1e-8 can be asked of
+        cond = float(np.linalg.cond(np.array([[float(x) for x in row] for row in B], dtype="float64")))
+        if not cond < 1e5:
+            judged = False
+            ctx.count("float_ill_conditioned_unjudged")
     feat = f"{rat}:{'explicit' if explicit else 'default'}:{kind}"
     if not ctx.check(o.ok, f"fitpoints:raises:{o.exc_name}:{feat}", f"fit_points raised {o.brief()}"):
         return
